@@ -17,7 +17,7 @@ func init() {
 	}
 	p := &PropSpec{ID: "C15", Level: "model_checking",
 		Outside: []string{
-			"files in which the 3 magic bytes occur at an offset other than the designated node positions (their checksum could not be repaired for the native replay); hence index nodes at arbitrary unaligned/overlapping positions",
+			"files in which the byte 0x72 (first magic byte) occurs inside an index node other than at its start, or whose bytes outside the designated nodes are not zero (chunk data is never read by ChunkReader); hence index nodes at arbitrary unaligned/overlapping positions",
 			"arity above 3, more than two index nodes, files longer than LEN bytes, more than STEPS NextChunk calls",
 			"dictionary loading in lib/internal/racdict; Reader.Read on hostile chunk data (codec-specific)",
 		},
@@ -26,10 +26,11 @@ func init() {
 			"a loop that is still feasible after the unwinding bound (12 evaluations of one branch per frame) is a candidate hang: it is replayed natively under a watchdog and reported only if the real code does not return",
 		},
 	}
-	add := func(tier string, layout, a1, a2, length, seek, steps int) {
+	add := func(tier string, layout, a1, a2, length, seek, steps int, a3opt ...int) {
+		a3 := append(a3opt, 0)[0]
 		p.Harnesses = append(p.Harnesses, HSpec{Prop: "C15", Pkg: L, Dir: "c15", Func: "VH_C15_Walk", Tier: tier, Cfg: cfg, Hang: true,
-			Label:  fmt.Sprintf("[layout=%d arity=%d/%d len=%d seek=%d]", layout, a1, a2, length, seek),
-			Params: map[string]int{"LAYOUT": layout, "ARITY1": a1, "ARITY2": a2, "LEN": length, "SEEK": seek, "STEPS": steps},
+			Label:  fmt.Sprintf("[layout=%d arity=%d/%d/%d len=%d seek=%d]", layout, a1, a2, a3, length, seek),
+			Params: map[string]int{"LAYOUT": layout, "ARITY1": a1, "ARITY2": a2, "ARITY3": a3, "LEN": length, "SEEK": seek, "STEPS": steps},
 			Reach:  []string{"walk/chunk"}})
 	}
 	//           layout a1 a2 len seek steps
@@ -38,6 +39,8 @@ func init() {
 	add("quick", 1, 1, 0, 40, 1, 3)
 	add("quick", 0, 1, 1, 66, 1, 3)
 	add("quick", 1, 1, 1, 64, 0, 3)
+	add("thorough", 1, 1, 1, 96, 0, 2, 1)
+	add("thorough", 0, 1, 1, 96, 1, 3, 1)
 	add("thorough", 0, 2, 0, 50, 1, 3)
 	add("thorough", 1, 2, 1, 82, 0, 4)
 	add("thorough", 0, 3, 2, 120, 1, 5)
